@@ -88,7 +88,7 @@ def run_sequence(ctx, rng, n, k0, nops):
               for i, nm in enumerate(names)]
     attrs0 = glist([f"({gz(code[nm])}, {('Some ' + pipes.coq_fref(code[nm], True)) if as_obj[i] else 'None'})"
                     for i, nm in reversed(list(enumerate(names)))])
-    cw = "{| pipeline := " + glist(steps0) + "; attrs := " + attrs0 + " |}"
+    cw = "(mk_wcs " + glist(steps0) + " " + attrs0 + ")"
     pt = [rng.randint(-20, 20) for _ in range(n)]
     next_new = [k0]
     problems, ops_terms, flags, desc = [], [], [], []
